@@ -79,8 +79,9 @@ class Report:
     def finish(self):
         known = self._known()
         wall = time.time() - self.t0
-        os.makedirs(os.path.join(VERIF, "evidence"), exist_ok=True)
-        vdir = os.path.join(VERIF, ".work", "violations")
+        evdir = os.environ.get("HS_EVIDENCE_DIR") or os.path.join(VERIF, "evidence")
+        os.makedirs(evdir, exist_ok=True)
+        vdir = os.environ.get("HS_VIOLATION_DIR") or os.path.join(VERIF, ".work", "violations")
         os.makedirs(vdir, exist_ok=True)
         new_violations = []
         known_hits = []
@@ -135,7 +136,7 @@ class Report:
             "wall_s": round(wall, 3),
             "violations": len(new_violations),
         }
-        with open(os.path.join(VERIF, "evidence", self.pid + ".json"), "w") as fh:
+        with open(os.path.join(evdir, self.pid + ".json"), "w") as fh:
             json.dump(ev, fh, indent=1, sort_keys=True)
         print("SUMMARY property=%s tier=%s instances=%d ok=%d violations=%d known=%d wall=%.2fs" % (
             self.pid, self.tier, obligations, discharged, len(new_violations), len(known_hits), wall))
